@@ -410,6 +410,12 @@ def run(ctx):
            f'the branch(es) {sorted(set(direct_mb))} read an operand with the end-aware reader directly: at end of input they get None instead '
            f'of an error', where0)
     writer_lossless(ctx, py, w)
+    # a Load written with the slot of another entry replays a different term (shared with C04 / C02): memory slots must be counted
+    # alike by writer and machine, and the operand must be the index of the very term loaded
+    from ..core import machine as M_
+    from ..core.rustfacts import Rust as Rust_
+    from . import c04 as c04_
+    c04_.memory_and_load(ctx, py, w, M_.rust_arms(Rust_.get()))
     # every handled opcode that nobody writes is harmless; report count
     ctx.analysed['writer opcodes'] = len(writer)
     ctx.analysed['reader branches'] = len(handled)
